@@ -31,7 +31,7 @@ func (c02) Cases(tier string) int {
 func (c02) Describe() core.Info {
 	return core.Info{
 		Level: "exploration",
-		Rule: "typed random programs in which about two thirds of the eligible predicates are defined by 1-3 aggregating rules (|> do fn:group_by(keys), let R = reducer): single- and multi-atom bodies (repeated variables in single-atom bodies), several aggregating rules with one head predicate, zero to two group keys, one or two reducers (count, sum, min, max, avg, collect_distinct read as a set), a plain non-recursive rule for the same head, bodies over recursive predicates of a lower stratum, comparisons inside the aggregated body, empty bodies. Oracle: per rule, the reference computes the distinct assignments of the body's named variables over the completed lower strata, groups them by key and folds each group; the expected facts of a head predicate are the union over its rules; compared with the stored facts on 4 store kinds (multi-indexed array, simple, teeing, and a teeing store whose base layer already holds every other fact of the model, as a saved result would). Non-trivial: some head predicate has >= 2 aggregating rules or >= 2 groups, and some group has >= 2 solutions; distinct by program+facts.",
+		Rule: "typed random programs in which about two thirds of the eligible predicates are defined by 1-3 aggregating rules (|> do fn:group_by(keys), let R = reducer): single- and multi-atom bodies (repeated variables in single-atom bodies), several aggregating rules with one head predicate, zero to two group keys, one or two reducers (count, sum, min, max, avg, collect_distinct read as a set), a plain non-recursive rule for the same head, bodies over recursive predicates of a lower stratum, comparisons inside the aggregated body, empty bodies. Oracle: per rule, the reference computes the distinct assignments of the body's named variables over the completed lower strata, groups them by key and folds each group; the expected facts of a head predicate are the union over its rules; compared with the stored facts on 4 store kinds (multi-indexed array, simple, teeing, and a teeing store whose base layer already holds every other fact of the model, as a saved result would). Non-trivial: some head predicate has >= 2 aggregating rules or >= 2 groups, and some group has >= 2 solutions; distinct by program+facts. A third of the aggregating rules carry 1-2 negated atoms / inequalities and nothing else behind their positive atoms (filters that a rewriting must not drop).",
 		Assumptions: []string{"wildcards inside aggregated bodies are not generated (the property does not say whether a wildcard position counts rows)", "avg is generated over small integers only"},
 		PerCaseTimeout: 120e9,
 	}
